@@ -8,6 +8,7 @@ mkwork "$ID"
 gen_corpus
 build_vchk
 mkdir -p "$VERIF/evidence" "$VERIF/replays/$ID"
-"$WORK/vchk" -prop "$ID" -tier "$TIER" -seed "${VERIF_SEED:-0}" -verif "$VERIF" -repo "$REPO" "$@"
+OUTARG=(); [ -n "$VERIF_OUT" ] && { mkdir -p "$VERIF_OUT"; OUTARG=(-out "$VERIF_OUT"); }
+"$WORK/vchk" -prop "$ID" -tier "$TIER" -seed "${VERIF_SEED:-0}" -verif "$VERIF" -repo "$REPO" "${OUTARG[@]}" "$@"
 rc=$?
 exit $rc
